@@ -1,6 +1,6 @@
 import operator
-from functools import reduce
-from typing import Any, Optional
+from functools import reduce, wraps
+from typing import Any, Callable, Optional, TypeVar
 
 from measured import Numeric, One, Quantity, Unit
 
@@ -9,27 +9,49 @@ from .formatting import from_superscript
 
 ParseError = _parser.LarkError
 
+F = TypeVar("F", bound=Callable[..., Any])
+
+
+def numeric_limits_are_parse_errors(function: F) -> F:
+    """Numerals beyond Python's limits (more digits than `int` will convert from a
+    string, exponents beyond the range of `float` prefix arithmetic) are reported as
+    a ParseError rather than as a ValueError or OverflowError"""
+
+    @wraps(function)
+    def inner(*args: Any) -> Any:
+        try:
+            return function(*args)
+        except (ValueError, OverflowError) as e:
+            raise ParseError(str(e)) from e
+
+    return inner  # type: ignore[return-value]
+
 
 class QuantityTransformer(_parser.Transformer[Any, "Quantity"]):
     inline = _parser.v_args(inline=True)
 
     @inline
+    @numeric_limits_are_parse_errors
     def unit(self, numerator: Unit, denominator: Optional[Unit] = None) -> Unit:
         return numerator / (denominator or One)
 
     @inline
+    @numeric_limits_are_parse_errors
     def unit_sequence(self, *terms: Unit) -> Unit:
         return reduce(operator.mul, terms)
 
     @inline
+    @numeric_limits_are_parse_errors
     def term(self, symbol: str, exponent: int = 1) -> Unit:
         return Unit.resolve_symbol(symbol) ** exponent
 
     @inline
+    @numeric_limits_are_parse_errors
     def carat_exponent(self, exponent: str) -> int:
         return int(exponent[1:])
 
     @inline
+    @numeric_limits_are_parse_errors
     def superscript_exponent(self, exponent: str) -> int:
         value = from_superscript(exponent)
         assert isinstance(value, int)
@@ -39,7 +61,11 @@ class QuantityTransformer(_parser.Transformer[Any, "Quantity"]):
     def quantity(self, magnitude: Numeric, unit: Unit) -> "Quantity":
         return Quantity(magnitude, unit)
 
-    int = inline(int)
+    @inline
+    @numeric_limits_are_parse_errors
+    def int(self, numeral: str) -> Numeric:
+        return int(numeral)
+
     float = inline(float)
 
 
